@@ -643,7 +643,9 @@ fn render_child(
 {
     let child_path = field_ctx.0;
     let child_name = child_path.child_path[field_ctx.1].to_token_stream();
-    let ty = &child_data.ty;
+    // the type is written in expression position: generic arguments (`Engine<i32> { .. }` does not parse) are left to inference
+    let mut ty = child_data.ty.clone();
+    ty.segments.iter_mut().for_each(|s| s.arguments = syn::PathArguments::None);
     let init = struct_init_block_inner(fields, named_fields, ctx, Some((field_ctx.0, Some(child_data), field_ctx.1)));
     match (ctx.input.named_fields(), hint) {
         (true, TypeHint::Struct | TypeHint::Unspecified) => quote!(#child_name: #ty #init,),
